@@ -34,6 +34,9 @@ pub struct Violation {
     pub case: Value,
 }
 
+/// replay by re-running a small fixed check and looking up this signature (see `finish`)
+pub static RERUN_SIGNATURE: std::sync::OnceLock<String> = std::sync::OnceLock::new();
+
 pub struct Report {
     pub prop: &'static str,
     pub tier: Tier,
@@ -105,6 +108,22 @@ impl Report {
 
     /// write evidence + replays, print verdict lines, return the process exit code
     pub fn finish(mut self) -> i32 {
+        if let Some(sig) = RERUN_SIGNATURE.get() {
+            // `verif replay` of a case that carries no data of its own (C19: the catalogue is
+            // fixed and small): the quick check was re-run, nothing is written, the recorded
+            // signature is looked up among the results
+            let hits: Vec<&Violation> = self.violations.iter().filter(|v| &v.signature == sig).collect();
+            return match hits.first() {
+                Some(v) => {
+                    println!("  BAD {} ({} cases) e.g. {}", v.signature, hits.len(), v.what);
+                    1
+                }
+                None => {
+                    println!("  => no case with the signature {sig:?}: the recorded deviation does not occur");
+                    0
+                }
+            };
+        }
         if crate::hist::replaying() {
             // nothing is judged and no evidence is written while searching for a recorded history
             return 2;
